@@ -13,7 +13,21 @@ pub fn exec(op: &str, a: &[Vec<u8>]) -> Out {
         // [bytes of any length] -> one byte per slice decoder (1 = Ok)
         "tot.slices" => {
             let b = &a[0][..];
+            // an accepted slice must also decode to the value it spells: every decoded value is re-encoded
+            let mut echo = true;
+            if let Ok(x) = CompressedEdwardsY::from_slice(b) { echo &= x.as_bytes()[..] == *b; }
+            if let Ok(x) = CompressedEdwardsY::try_from(b) { echo &= x.to_bytes()[..] == *b; }
+            if let Ok(x) = CompressedRistretto::from_slice(b) { echo &= x.as_bytes()[..] == *b; }
+            if let Ok(x) = CompressedRistretto::try_from(b) { echo &= x.to_bytes()[..] == *b; }
+            if let Ok(x) = VerifyingKey::try_from(b) { echo &= x.as_bytes()[..] == *b; }
+            if let Ok(x) = SigningKey::try_from(b) { echo &= x.to_bytes()[..] == *b; }
+            if let Ok(x) = Signature::from_slice(b) { echo &= x.to_bytes()[..] == *b; }
+            if let Ok(x) = Signature::try_from(b) { echo &= x.to_bytes()[..] == *b; }
+            if let (Ok(x), Ok(y)) = (ExpandedSecretKey::from_slice(b), ExpandedSecretKey::try_from(b)) {
+                echo &= x.scalar == y.scalar && x.hash_prefix == y.hash_prefix && x.hash_prefix[..] == b[32..];
+            }
             let o = vec![
+                echo as u8,
                 CompressedEdwardsY::from_slice(b).is_ok() as u8,
                 CompressedEdwardsY::try_from(b).is_ok() as u8,
                 CompressedRistretto::from_slice(b).is_ok() as u8,
